@@ -5,7 +5,7 @@
 //   popload  <arch> <type#> <mode> <pol> <prior> <doc>   -> OK <value> | EXC:<code>
 //   validate <arch> <class#> <max> <pol> <doc>           -> OK <value> | VAL <path>:<msg>,..;.. <state|-> | EXC:<code>
 //
-// arch: json | mp | csv    mode: - | c | o | u (MapLoadMode)    pol: two letters (mismatch, overflow; S = Skip, T = ThrowError)
+// arch: json | mp | csv | xml (xml: implementation only, known-finding replay)    mode: - | c | o | u (MapLoadMode)    pol: two letters (mismatch, overflow; S = Skip, T = ThrowError)
 // values / documents, one token:  n | t | f | i<decimal> | s<hex> | [x,..] | {k:x,..}  keys i<decimal> | s<hex>
 // The catalogues (type#, class#) are the same lists as type_catalogue / class_catalogue in coq/ArchCodec.v.
 #include "common.h"
@@ -15,6 +15,7 @@
 #include "bitserializer/rapidjson_archive.h"
 #include "bitserializer/msgpack_archive.h"
 #include "bitserializer/csv_archive.h"
+#include "bitserializer/pugixml_archive.h"
 #include "bitserializer/types/std/array.h"
 #include "bitserializer/types/std/bitset.h"
 #include "bitserializer/types/std/deque.h"
@@ -36,6 +37,7 @@ using namespace BitSerializer;
 using JsonArchive = BitSerializer::Json::RapidJson::JsonArchive;
 using MsgPackArchive = BitSerializer::MsgPack::MsgPackArchive;
 using CsvArchive = BitSerializer::Csv::CsvArchive;
+using XmlArchive = BitSerializer::Xml::PugiXml::XmlArchive;
 
 // ------------------------------------------------------------------ document trees
 struct Tree {
@@ -197,11 +199,35 @@ static std::string to_csv(const Tree& t) {
 	}
 	return out;
 }
+// XML (implementation-only, for the replay of known finding F29; not part of the model): arrays
+// <array>, objects <object>, scalars <value>text</value>, null <value/>, members named by their key
+static void xml_text(const std::string& s, std::string& out) {
+	for (char c : s) { if (c == '<') out += "&lt;"; else if (c == '&') out += "&amp;"; else if (c == '>') out += "&gt;"; else out.push_back(c); }
+}
+static void to_xml(const Tree& t, const std::string& name, std::string& out) {
+	switch (t.k) {
+	case Tree::Null: out += "<" + name + "/>"; break;
+	case Tree::Bool: out += "<" + name + ">" + (t.b ? "true" : "false") + "</" + name + ">"; break;
+	case Tree::Int: out += "<" + name + ">" + std::to_string(t.i) + "</" + name + ">"; break;
+	case Tree::Str: out += "<" + name + ">"; xml_text(t.s, out); out += "</" + name + ">"; break;
+	case Tree::Arr: {
+		const std::string n = name == "value" ? "array" : name;
+		out += "<" + n + ">";
+		for (auto& e : t.a) to_xml(e, "value", out);
+		out += "</" + n + ">"; break; }
+	case Tree::Map: {
+		const std::string n = name == "value" ? "object" : name;
+		out += "<" + n + ">";
+		for (auto& kv : t.m) to_xml(kv.second, kv.first.k == Tree::Int ? "k" + std::to_string(kv.first.i) : kv.first.s, out);
+		out += "</" + n + ">"; break; }
+	}
+}
 static std::string encode(const std::string& arch, const Tree& doc) {
 	std::string out;
 	if (arch == "json") to_json(doc, out);
 	else if (arch == "mp") to_msgpack(doc, out);
 	else if (arch == "csv") out = to_csv(doc);
+	else if (arch == "xml") { out = "<?xml version=\"1.0\"?>"; to_xml(doc, "value", out); }
 	else throw Syntax{"arch"};
 	return out;
 }
@@ -414,13 +440,17 @@ static SerializationOptions make_options(const std::string& pol, unsigned max) {
 	return o;
 }
 
-template <bool Csv, class T>
+template <bool Csv, bool Xml, class T>
 static void load_with(const std::string& arch, T& obj, const std::string& input, const SerializationOptions& o) {
 	if (arch == "json") LoadObject<JsonArchive>(obj, input, o);
 	else if (arch == "mp") LoadObject<MsgPackArchive>(obj, input, o);
 	else if (arch == "csv") {
 		if constexpr (Csv) LoadObject<CsvArchive>(obj, input, o);
 		else throw Syntax{"type not loadable from csv"};
+	}
+	else if (arch == "xml") {
+		if constexpr (Xml) LoadObject<XmlArchive>(obj, input, o);
+		else throw Syntax{"type not loadable from xml"};
 	}
 	else throw Syntax{"arch"};
 }
@@ -436,17 +466,17 @@ template <class K, class V> struct is_std_map<std::unordered_map<K, V>> : std::t
 
 struct Case { std::string arch; char mode; std::string pol; Tree prior; Tree doc; };
 
-template <class T, bool Csv = false>
+template <class T, bool Csv = false, bool Xml = true>
 static std::string popload(const Case& c) {
 	T obj{};
 	if (!build(c.prior, obj)) return "BADCASE";
 	const std::string input = encode(c.arch, c.doc);
 	const SerializationOptions o = make_options(c.pol, 0);
-	if (c.mode == '-') load_with<Csv>(c.arch, obj, input, o);
+	if (c.mode == '-') load_with<Csv, Xml>(c.arch, obj, input, o);
 	else {
 		if constexpr (is_std_map<T>::value) {
 			MapWithMode<T> w{ obj, c.mode == 'c' ? MapLoadMode::Clean : c.mode == 'o' ? MapLoadMode::OnlyExistKeys : MapLoadMode::UpdateKeys };
-			load_with<false>(c.arch, w, input, o);
+			load_with<false, Xml>(c.arch, w, input, o);
 		}
 		else return "BADCASE";
 	}
@@ -475,9 +505,9 @@ static const std::vector<std::function<std::string(const Case&)>> type_catalogue
 	popload<std::map<std::string, int>>,                         // 17
 	popload<std::multimap<int, int>, true>,                      // 18
 	popload<std::unordered_multimap<std::string, int>>,          // 19
-	popload<std::optional<int>>,                                 // 20
-	popload<std::unique_ptr<int>>,                               // 21
-	popload<std::shared_ptr<int>>,                               // 22
+	popload<std::optional<int>, false, false>,                                 // 20
+	popload<std::unique_ptr<int>, false, false>,                               // 21
+	popload<std::shared_ptr<int>, false, false>,                               // 22
 	popload<std::vector<std::string>>,                           // 23
 	popload<std::vector<std::vector<int>>>,                      // 24
 	popload<std::vector<std::optional<int>>>,                    // 25
@@ -495,8 +525,8 @@ static const std::vector<std::function<std::string(const Case&)>> type_catalogue
 	popload<std::vector<std::unique_ptr<std::vector<int>>>>,     // 37
 	popload<int[3]>,                                             // 38
 	popload<std::deque<std::list<std::string>>>,                 // 39
-	popload<std::string>,                                        // 40
-	popload<int>,                                                // 41
+	popload<std::string, false, false>,                                        // 40
+	popload<int, false, false>,                                                // 41
 	popload<std::vector<std::vector<bool>>>,                     // 42
 	popload<std::list<std::set<std::string>>>,                   // 43
 };
@@ -612,7 +642,7 @@ static std::string validate(const VCase& c) {
 	const std::string input = encode(c.arch, c.doc);
 	const SerializationOptions o = make_options(c.pol, c.max);
 	try {
-		load_with<Csv>(c.arch, obj, input, o);
+		load_with<Csv, true>(c.arch, obj, input, o);
 	}
 	catch (const ValidationException& ex) {
 		std::string r = "VAL ";
